@@ -56,6 +56,6 @@ def sample(c, o):
     return {'prog': c['prog'], 'copy_first_ops': (o.get('copy') or {}).get('ops', [])[:2]}
 
 
-LEVEL_TEXT = 'see DESIGN.md C05'
-LEVEL_NOTE = 'see DESIGN.md section 9'
+LEVEL_TEXT = 'Coq theorems: the generated class table is faithful (every copy() transfers link and init fields: vm_compute over Gen/Classes.v); for every well-formed, fully listed graph the copy is the original renumbered in listing order (copy_iso), so listing, schedule, duration and channels are identical, internal relations are re-pointed, a copy of a copy is identical; the same for a circuit nested into an empty circuit. Independence of the two object graphs is an observation of the correspondence run (mutate one side, watch the other).'
+LEVEL_NOTE = 'Trusted: Coq kernel, translator (Gen/Classes.v), Core model tied by correspondence over every operation class. Graphs deeper than the 4999-level limit are outside the theorems. No axioms.'
 TECHNIQUE = 'Coq proof over an executable model + correspondence evaluated by vm_compute'
